@@ -39,7 +39,12 @@ struct Buffer {
 }
 
 impl Buffer {
-    fn enqueue(&mut self, msg: Message, con: Connection) {
+    fn enqueue(&mut self, msg: Message, mut con: Connection) {
+        // The channel of a queued connection is always the channel that owns this
+        // buffer. Keeping that reference would form a cycle (channel -> buffer ->
+        // connection -> channel) that leaks the channel and all queued messages once
+        // the simulation is dropped, so it is removed here and restored in `unbusy`.
+        con.channel = None;
         self.acc_bytes += msg.length();
         self.packets.push_back((msg, con));
     }
@@ -254,9 +259,10 @@ impl Channel {
         // (and schedules no further unbusy notification), so keep dequeuing until
         // the channel is busy again or the buffer is empty.
         while !chan.busy {
-            let Some((msg, next_gate)) = chan.buffer.dequeue() else {
+            let Some((msg, mut next_gate)) = chan.buffer.dequeue() else {
                 break;
             };
+            next_gate.channel = Some(self.clone());
             drop(chan);
             self.clone().send_message(msg, next_gate, sink);
             chan = self.inner.write().unwrap();
